@@ -614,6 +614,18 @@ def r18_8(ctx: Ctx):
     return [ctx.ob("R18.8", f, f.node, detail="every path after _do_sprout rewrites the flags unless the option is off", construct="flag-round")]
 
 
+def r18_9(ctx: Ctx):
+    """R18.9 the `hibernation` option a tree reads is its own configuration's: the options dictionary of a TreeConfig is never
+    written by pyhms while it can be the module-level default dictionary (an earlier configuration's `hibernation: True` would
+    otherwise switch hibernation on for every later tree that leaves the key out)."""
+    from .c02 import shared_module_state
+
+    obs = shared_module_state(ctx, "R18.9", attrs=("options",))
+    if not obs:
+        obs.append(ctx.ob("R18.9", None, None, subject="config.TreeConfig", loc="-", detail="TreeConfig.options never aliases a module-level dictionary", construct="options-own"))
+    return obs
+
+
 RULES = [
     ("R18.1", r18_1, 1),
     ("R18.2", r18_2, 2),
@@ -623,4 +635,5 @@ RULES = [
     ("R18.6", r18_6, 2),
     ("R18.7", r18_7, 1),
     ("R18.8", r18_8, 1),
+    ("R18.9", r18_9, 1),
 ]
